@@ -69,6 +69,17 @@ Theorem C19_op_local : forall o f q,
 Proof. exact run_op_local. Qed.
 Print Assumptions C19_op_local.
 
+(* symbolic links in what is copied (media_dir, copy_subdir directories): copytree copies what a
+   link leads to, so nothing below the destination is a link and every touch of a copy acts on
+   the copy itself, never on a link's target outside *)
+Theorem C19_copies_are_not_links : forall a b f suf n,
+  deref f (a ++ suf) = Some n ->
+  leads_to_dir f a && is_none (deref f b) && is_none (f b) = true -> is_dir (mkdirs f b) b = true ->
+  run_op (CopyTree a b) f (b ++ suf) = Some n /\
+  touch_acts_on (run_op (CopyTree a b) f) (b ++ suf) = b ++ suf.
+Proof. exact copies_are_not_links. Qed.
+Print Assumptions C19_copies_are_not_links.
+
 (* output_dir equal to or above a source directory: no operation at all *)
 Theorem C19_refusal : forall b pkg c p cands src,
   In src (srcs c) -> under (out c) src -> ford_ops b pkg c p cands = [].
